@@ -177,7 +177,7 @@ type node struct {
 	deadWhy   string
 	kidsAlive bool // children, text and pseudo-elements of this element generate boxes
 	replaced  bool
-	effParent int // nearest ancestor that generates a box (display:contents skipped)
+	effParent int  // nearest ancestor that generates a box (display:contents skipped)
 	inRunning bool // the element or an ancestor is a running element: table rules 1.1/1.2 are deferred
 }
 
